@@ -15,6 +15,11 @@ REGISTRY = {
         'level_note': 'Trusted: Lean kernel (+leanchecker), axioms propext/Quot.sound; Spec/Actions.lean as the reading of the property\'s wording; the model of ast.rs is validated by the correspondence stream (random trees, depth<=12); overflow of byte_size beyond 64 bits is modelled per profile (panic/wrap) and compared, but the property does not constrain it.',
     },
 }
+REGISTRY['C12'] = {
+    'profiles': ['debug', 'release'],
+    'level_text': 'Machine-checked (Lean 4) for ALL trees of the shapes the parser returns (no explicit-precedence/option node), all clocks, options and manager states: the model of scheme::compile fails exactly when the tree contains, at any depth (dead branches and format strings included), a construct of the independent unsupported table (13 tests, 3 actions, 7 directives, \\c, the positional option), the error kind is that of the first such construct, every tree of supported constructs compiles, and no outcome is a panic (C12, C12_kind). Tied to target_scheme.rs on every run by every unsupported construct alone, dead-branch placements and random trees over the full vocabulary, in debug and release builds; the same run evaluates the table directly on the implementation\'s answers and scans emitted programs for placeholders.',
+    'level_note': 'Trusted: Lean kernel (+leanchecker), axioms propext/Classical.choice/Quot.sound; Spec/Supported.lean as the reading of "cannot express"; the model of target_scheme.rs/manager.rs is validated by byte-for-byte comparison of emitted programs on the sampled stream; the constructor name in the error payload is compared, the payload\'s Debug escaping is not modelled. Trees with Precedence/Global nodes (unreachable from parse, proved in C01/C13) are outside the statement.',
+}
 for _p in ['C03', 'C05', 'C06', 'C07', 'C08', 'C13', 'C14', 'C17', 'C18', 'C02', 'C04', 'C09', 'C10', 'C11', 'C12', 'C15', 'C16', 'C20']:
     REGISTRY.setdefault(_p, {'claimed': False, 'profiles': ['debug', 'release'] if _p in ('C03', 'C07', 'C17') else ['debug'],
                              'cross_profile': _p == 'C17', 'level_text': '', 'level_note': ''})
